@@ -7,7 +7,7 @@ ID = "C18"
 LEVEL = "model_checking"
 TECHNIQUE = "breadth-first explicit-state search over add/remove histories on two live Enum objects (histories replayed on fresh objects, canonical state hashed for de-duplication), every state compared with two ordinary dicts as reference model"
 RULE = ("initial mappings in dict form and keyword form (incl. empty, duplicate values, nested dict and OpCode values); operations add(name,value) "
-        "and remove(name) on either of two enumerations over names {A, B, 'C-D e'} x values {1, 2, 'x', {'n':1}, OpCode} (quick: 4 values); BFS to "
+        "and remove(name) on either of two enumerations over names {A, B, 'C-D e'} x values {big int, 0, {'n':1}, OpCode, None | second int, {}, 'x', ''} (quick: the first 5); BFS to "
         "depth 4 (quick) / 5 (thorough) with de-duplication on the ordered item lists of both enumerations; in every state: keys, every getattr, "
         "reverse lookup of every alphabet value, refusal of duplicate add / missing remove, on both enumerations. states = distinct canonical "
         "states, transitions = operations applied to real objects.")
@@ -20,7 +20,7 @@ NAMES = ["A", "B", "C-D e"]
 
 
 def bounds(tier):
-    return {"depth": 4 if tier == "quick" else 5, "values": 4 if tier == "quick" else 5}
+    return {"depth": 4 if tier == "quick" else 5, "values": 5 if tier == "quick" else 9}
 
 
 def values(n):
@@ -30,7 +30,9 @@ def values(n):
         _OP
     except NameError:
         _OP = OpCode("A", 1, {})
-    v = [("i1", int("1000000000001")), ("i2", int("1000000000002")), ("dict", {"n": 1}), ("op", _OP), ("sx", "x")]
+    # includes falsy values (0, None, empty dict): "is the name present" must not be confused with "is its value true"
+    v = [("i1", int("1000000000001")), ("zero", 0), ("dict", {"n": 1}), ("op", _OP), ("none", None), ("i2", int("1000000000002")),
+         ("edict", {}), ("sx", "x"), ("estr", "")]
     return v[:n]
 
 
@@ -53,16 +55,21 @@ def tag_of(v, vals):
 
 
 INITS = [
-    [("dict", [("A", "i1"), ("B", "i1")]), ("kw", [("A", "i2")])],
-    [("dict", [("C-D e", "dict"), ("A", "op")]), ("dict", [("A", "i2")])],
-    [("kw", [("A", "i1"), ("B", "i2")]), ("kw", [("B", "i1")])],
+    [("dict", [("A", "i1"), ("B", "i1")]), ("kw", [("A", "zero")])],
+    [("dict", [("C-D e", "dict"), ("A", "op")]), ("dict", [("A", "none")])],
+    [("kw", [("A", "i1"), ("B", "zero")]), ("kw", [("B", "i1")])],
     [("dict", []), ("kw", [("A", "i1")])],
-    [("dict", [("B", "op"), ("A", "op"), ("C-D e", "i2")]), ("dict", [])],
+    [("dict", [("B", "op"), ("A", "op"), ("C-D e", "zero")]), ("dict", [])],
+    [("kw", [("A", "none"), ("B", "zero")]), ("dict", [("C-D e", "zero")])],
 ]
 
 
+NCHUNK = 3
+
+
 def partitions(tier):
-    return [[i] for i in range(len(INITS))]
+    # chunk c explores the histories whose first operation has index c mod NCHUNK (de-duplication is per partition)
+    return [[i, c] for i in range(len(INITS)) for c in range(NCHUNK)]
 
 
 def build(init, hist, vals):
@@ -168,7 +175,7 @@ def run_partition(part, tier, seed):
     acc = Acc(seed)
     b = bounds(tier)
     vals = values(b["values"])
-    idx = part[0]
+    idx, chunk = part
     ops = []
     for which in (0, 1):
         for n in NAMES:
@@ -185,7 +192,9 @@ def run_partition(part, tier, seed):
         hist = frontier.popleft()
         if len(hist) >= b["depth"]:
             continue
-        for op in ops:
+        for opi, op in enumerate(ops):
+            if not hist and opi % NCHUNK != chunk:
+                continue
             h2 = hist + (op,)
             case = [idx, [list(o) for o in h2], b["values"]]
             enums, models, v = build(INITS[idx], h2, vals)
